@@ -144,7 +144,65 @@ func c04ScanInput(r *mon.RNG) string {
 	return sb.String()
 }
 
+// c04Generated applies the oracle to the Go lexers emitted by `participle gen lexer`
+// for generated rule maps (built into this child by the prepare step).
+func c04Generated(c *mon.Child) {
+	for _, idx := range lexgen.GeneratedOrder {
+		gen := lexgen.Generated[idx]
+		g := lexMapFor("C04", c.Seed, c.Batch, idx)
+		concat := !g.HasElided()
+		r := c.RNG("geninputs", idx)
+		inputs := lexInputs(r, g, c.N(40, 120))
+		if c.Batch == 0 && idx == 0 {
+			inputs = append([]string{"a # c\nb  c\n", "# é\n\nx  y # 世\nz"}, inputs...)
+		}
+		for ii, in := range inputs {
+			key := fmt.Sprintf("g%d.i%d", idx, ii)
+			if !c.Want(key) {
+				continue
+			}
+			c.Begin(key, fmt.Sprintf("generated lexer %s <- %q", trunc(g.String(), 300), trunc(in, 200)))
+			c.Eval(1)
+			fname := []string{"gen.txt", "", "d/é"}[ii%3]
+			var toks []lexer.Token
+			var lerr error
+			p, _, _ := mon.Guard(func() {
+				var lx lexer.Lexer
+				switch ii % 3 {
+				case 0:
+					lx, lerr = gen.(lexer.StringDefinition).LexString(fname, in)
+				case 1:
+					lx, lerr = gen.(lexer.BytesDefinition).LexBytes(fname, []byte(in))
+				default:
+					lx, lerr = gen.Lex(fname, strings.NewReader(in))
+				}
+				if lerr == nil {
+					toks, lerr = lexer.ConsumeAll(lx)
+				}
+			})
+			if p || lerr != nil {
+				c.Feature("generated_inputs_not_lexable")
+				c.End(key)
+				continue
+			}
+			if d := c04Oracle(toks, in, fname, concat); d != "" {
+				c.Violation("", key, "generated lexer: "+d+" | rules: "+trunc(g.String(), 500)+fmt.Sprintf(" | input: %q", trunc(in, 300)),
+					map[string]interface{}{"rules": g, "input": trunc(in, 2000), "difference": d})
+			}
+			c.Feature("generated_lexer_outputs_checked")
+			if g.HasElided() {
+				c.Feature("generated_lexer_outputs_with_elided_rules")
+			}
+			if c04Features(c, toks, in) >= 2 && len(toks) > 2 {
+				c.Nontrivial("generated" + g.String() + "\x00" + in)
+			}
+			c.End(key)
+		}
+	}
+}
+
 func c04Child(c *mon.Child) {
+	c04Generated(c)
 	// Part A: stateful and simple lexers on generated maps.
 	nMaps := c.N(150, 2000)
 	nInputs := c.N(80, 250)
@@ -186,11 +244,14 @@ func c04Child(c *mon.Child) {
 			var lerr error
 			p, pv, st := mon.Guard(func() {
 				var lx lexer.Lexer
-				switch ii % 2 {
+				switch ii % 3 {
 				case 0:
 					lx, lerr = def.LexString(fname, in)
-				default:
+				case 1:
 					lx, lerr = def.Lex(fname, strings.NewReader(in))
+				default:
+					// a reader that has a name of its own: the caller's filename still wins
+					lx, lerr = def.Lex(fname, namedReader{strings.NewReader(in), "reader-name.txt"})
 				}
 				if lerr == nil {
 					toks, lerr = lexer.ConsumeAll(lx)
@@ -301,7 +362,7 @@ func c04Child(c *mon.Child) {
 func init() {
 	Register(&mon.Spec{
 		ID:   "C04",
-		Rule: "case = (lexer, input) for stateful and simple lexers on generated rule maps and for every text/scanner constructor on Go-like text with multi-line raw strings and comments, multi-byte runes, CR/LF, BOM, empty input. On every successful lexing each token value must be the input bytes at its offset, offsets increasing and non-overlapping, one final EOF at len(input), line/column computed from the input alone, filename as supplied, and concatenation = input for maps without lower-case rules. Non-trivial: >=2 of {multi-byte text, a token spanning a newline, multi-byte text after the newline inside a token, >=2 newlines}. Distinct by (lexer kind+rules, input). Generated Go lexers are checked with the same oracle inside the C05 check (they need a build step).",
+		Rule: "case = (lexer, input) for stateful and simple lexers on generated rule maps and for every text/scanner constructor on Go-like text with multi-line raw strings and comments, multi-byte runes, CR/LF, BOM, empty input. On every successful lexing each token value must be the input bytes at its offset, offsets increasing and non-overlapping, one final EOF at len(input), line/column computed from the input alone, filename as supplied, and concatenation = input for maps without lower-case rules. Non-trivial: >=2 of {multi-byte text, a token spanning a newline, multi-byte text after the newline inside a token, >=2 newlines}. Distinct by (lexer kind+rules, input). Go lexers emitted by `participle gen lexer` for generated rule maps (incl. lower-case rules) are compiled into the child and checked with the same oracle through LexString/LexBytes/Lex.",
 		Assumptions: []string{
 			"column counts characters (runes; an invalid byte counts as one)",
 			"only successful lexing is judged; totality belongs to C07",
@@ -309,6 +370,7 @@ func init() {
 		Batches:    func(t string) int { return pick(t, 4, 16) },
 		Floor:      func(t string) int { return pick(t, 300, 5000) },
 		TimeoutSec: func(t string) int { return pick(t, 600, 3000) },
+		Prepare:    lexProgPrepare("C04", func(t string) int { return pick(t, 25, 80) }),
 		Child:      c04Child,
 	})
 }
